@@ -469,6 +469,7 @@ def step (d : DState) (op impl : String) : DState × StepOut :=
         let o4 := match d.prev, mop with
           | some p, [.join ..] => textNotifFailing p im.snap im.evs
           | some p, [.leave ..] => textNotifFailing p im.snap im.evs
+          | some p, [.exit a] => textExitFailing p im.snap a im.evs
           | _, _ => []
         ({ st := st', prev := some im.snap },
          { model, oracle := o1 ++ o2 ++ o3 ++ o4,
